@@ -71,7 +71,8 @@ class C03(Prop):
         b = exprs(Opts(max_depth=d, reals=True), None)
         nest = st.sampled_from(NESTS)
         pm = exprs(Opts(reals=True, max_depth=2, deltas=True, consts=True, max_names=3), ("real", ()))
-        return st.tuples(st.one_of(a, a, b, pm), nest).map(lambda t: {"ast": t[0], "nest": tuple(t[1])})
+        al = exprs(Opts(max_depth=d, align_weight=8), ("real", ()))  # Align wrappers at operand positions
+        return st.tuples(st.one_of(a, a, b, pm, al), nest).map(lambda t: {"ast": t[0], "nest": tuple(t[1])})
 
     def describe(self, case):
         return f"[{'>'.join(case['nest'])}] {show(case['ast'])}"
